@@ -12,6 +12,7 @@ CONSTANTS
   EnvAtQuiet = FALSE
   GenNoFaults = FALSE
   GenHold = 0
+  MaxPhantom = 0
 INIT PolicyInit
 NEXT PolicyNext
 INVARIANT PolicyEmit
